@@ -307,7 +307,8 @@ fn record_case(src: &mut Src, ctx: &mut Ctx) -> Result<(), String> {
         1 => (false, true),
         _ => (true, true),
     };
-    let strans = Some(GdsStrans { mag: if has_mag { Some(v[2]) } else { None }, angle: if has_angle { Some(v[3]) } else { None }, ..Default::default() });
+    // (the two "absolute" flag bits are flags: they say nothing about the sign of the numbers beside them)
+    let strans = Some(GdsStrans { mag: if has_mag { Some(v[2]) } else { None }, angle: if has_angle { Some(v[3]) } else { None }, abs_mag: src.prob(1, 4), abs_angle: src.prob(1, 4), reflected: src.prob(1, 4) });
     let kind = src.below(3);
     ctx.label(["reals on a structure reference", "reals on an array reference", "reals on a text"][kind as usize]);
     s.elems.push(match kind {
@@ -363,7 +364,7 @@ fn many_reals_case(src: &mut Src, ctx: &mut Ctx) -> Result<(), String> {
         let mag = if src.prob(3, 4) { Some(pool[src.index(npool)]) } else { None };
         let angle = if src.prob(3, 4) { Some(pool[src.index(npool)]) } else { None };
         want.push((mag, angle));
-        s.elems.push(GdsElement::GdsStructRef(GdsStructRef { name: "T".into(), xy: GdsPoint::new(0, 0), strans: Some(GdsStrans { mag, angle, ..Default::default() }), ..Default::default() }));
+        s.elems.push(GdsElement::GdsStructRef(GdsStructRef { name: "T".into(), xy: GdsPoint::new(0, 0), strans: Some(GdsStrans { mag, angle, abs_mag: src.prob(1, 3), abs_angle: src.prob(1, 3), reflected: src.prob(1, 3) }), ..Default::default() }));
     }
     lib.structs.push(s);
     ctx.nontrivial(crate::engine::hash_of(&format!("{:?}", want)));
